@@ -1,9 +1,10 @@
+\* quick tier: every scenario shape (source 3, destination empty/partial/full, batch/fetchers/submitters 1..2, modes, honest/forked) x 1 fault, no growth
 CONSTANTS
   MaxIdx = 4
   FaultKinds = {"short", "fetchErr", "quota", "fatal", "rootErr", "sthErr", "consErr", "cancel", "revoke"}
   KeepHist = FALSE
   SrcSizes = {3}
-  Growths = {0, 1}
+  Growths = {0}
   Batches = {1, 2}
   FetcherCounts = {1, 2}
   SubmitterCounts = {1, 2}
